@@ -23,12 +23,13 @@ def nontrivial(k):
 
 
 def run(tier, seed):
-    life = session.base(Kinds=LIFE, AttachNames=["", "a/b", "b/a"], MaxFiles=7)
+    # CloneProbes: after every explored edge each bound fid is cloned onto a free number and the clone clunked
+    life = session.base(Kinds=LIFE, AttachNames=["", "a/b", "b/a"], MaxFiles=7, CloneProbes=True)
     fault = session.base(Kinds=[k for k in LIFE if k != "Tlopen"], AttachNames=["", "a/b"], MaxFiles=7,
                          FaultKinds=["EIO"], MaxFaults=1)
     two = session.base(Conns=[1, 2], Fids=[1], Kinds=["Tattach", "Twalk", "Tclunk", "Trenameat", "Tunlinkat", "Disconnect"],
                        AttachNames=["", "a/b"], MaxFiles=6)
-    ren = session.base(Kinds=["Tattach", "Twalk", "Tclunk", "Trenameat", "Trename", "Disconnect"], MaxFiles=7)
+    ren = session.base(Kinds=["Tattach", "Twalk", "Tclunk", "Trenameat", "Trename", "Tunlinkat", "Disconnect"], MaxFiles=7, CloneProbes=True)
     if tier == "quick":
         mc = [("life-d4", dict(life, MaxDepth=4)), ("fault-d3", dict(fault, MaxDepth=3)), ("twoconn-d4", dict(two, MaxDepth=4)),
               ("rename-d5", dict(ren, MaxDepth=5))]
